@@ -645,6 +645,14 @@ fn cfg_from(v: &Value) -> Cfg {
 fn replay(ctx: &Ctx, path: &std::path::Path) -> i32 {
     let doc: Value = serde_json::from_str(&std::fs::read_to_string(path).expect("replay file")).expect("json");
     let r = &doc["replay"];
+    if r["mcsp"] == true {
+        let mut report = Report::new();
+        if let Err(e) = super::c15m::replay(r, &mut report) {
+            eprintln!("MACHINERY: {}", e);
+            return 2;
+        }
+        return common::finish(ctx, report, Evidence::new("model_checking"));
+    }
     if !r["ids"].is_null() {
         // the identifier sweep is deterministic and small: rerun it and report the class named in the file
         let mut all = Report::new();
@@ -794,7 +802,21 @@ pub fn run(ctx: &Ctx) -> i32 {
     } else {
         None
     };
+    let mcsp = if nonce {
+        match super::c15m::run(ctx.tier, &mut report) {
+            Ok(v) => Some(v),
+            Err(e) => {
+                eprintln!("MACHINERY: {}", e);
+                return 2;
+            }
+        }
+    } else {
+        None
+    };
     let mut ev = Evidence::new("model_checking");
+    if let Some(v) = mcsp {
+        ev.set("group_counter_synchronisation", v);
+    }
     if let Some(s) = &ids {
         if report.violations.is_empty() && (s.skips_observed == 0 || s.wraps_observed == 0) {
             eprintln!("MACHINERY: vacuous identifier sweep (skips {}, wraps {})", s.skips_observed, s.wraps_observed);
